@@ -4436,9 +4436,15 @@ class EntityMeta(type):
                              % (obj.__class__.__name__, pkval))
         elif obj.__class__ is entity: pass
         elif issubclass(obj.__class__, entity): pass
-        elif not issubclass(entity, obj.__class__): throw(TransactionError,
-            'Unexpected class change from %s to %s for object with primary key %r' %
-            (obj.__class__, entity, obj._pkval_))
+        elif not issubclass(entity, obj.__class__):
+            # an unloaded seed has the declared class of the reference it came from:
+            # with multiple inheritance its real class may be a common subclass of both
+            common = obj.__class__._subclasses_ & entity._subclasses_ if obj in cache.seeds[pk_attrs] else ()
+            tops = [ cls for cls in common if all(issubclass(cls2, cls) for cls2 in common) ]
+            if not tops: throw(TransactionError,
+                'Unexpected class change from %s to %s for object with primary key %r' %
+                (obj.__class__, entity, obj._pkval_))
+            obj.__class__ = tops[0]
         elif obj._rbits_ or obj._wbits_: throw(NotImplementedError)
         else: obj.__class__ = entity
 
